@@ -196,6 +196,12 @@ def run(ctx):
     # ------------------------------------------------------------------ translator validation: concrete inputs through model and real code
     validate_translation(ctx, prog, F, body)
 
+    # discard limits of worker queues (real enqueue_job / dispatch_job / get_next_non_expired_job)
+    import C15_limits
+    import world
+    prog2, info2 = world.load()
+    C15_limits.check(ctx, prog2)
+
 
 def concretise(m, v, now):
     pre = {k: (mval(m, v[k].t) if v[k] is not None else None) for k in ('refill', 'max', 'balance', 'interval', 'deadline')}
@@ -450,5 +456,11 @@ def replay_file(path):
         last = times[-1]
         crossed = 0 if last < pre['deadline'] else (last - pre['deadline']) // pre['interval'] + 1
         return 1 if int(out['admitted']) > pre['balance'] + pre['refill'] * crossed else 0
+    if rp.get('scenario') == 'worker_enqueue':
+        import C15_limits_replay
+        obs = C15_limits_replay.run_native(rp['rp']['mode'], rp['limit'], rp['rp']['qlen'], rp['rp']['busy'], rp['dead'])
+        bad = C15_limits_replay.violations(rp['rp']['mode'], rp['limit'], rp['rp']['qlen'], rp['rp']['busy'], obs)
+        print('native:', obs, 'violated:', bad)
+        return 1 if bad else 0
     print('unknown replay scenario')
     return 2
